@@ -188,6 +188,9 @@ async def _main(case, obs, loop, net):
         c.fetch_max_batches = Cyclic(case["shape_batches"])
     if case.get("shape_partial"):
         c.fetch_partial = Cyclic(case["shape_partial"])
+    for k, off in (case.get("committed") or {}).items():
+        t, pnum = k.rsplit(":", 1)
+        c.groups.group(cfg["group_id"]).offsets[(t, int(pnum))] = (off, "")
     c.set_faults(case.get("faults", []))
     env = []
     for e in case.get("env", []):
@@ -201,6 +204,7 @@ async def _main(case, obs, loop, net):
         env.append(e)
     c.schedule(env)
     kw = dict(bootstrap_servers=c.bootstrap(), group_id=cfg.get("group_id"),
+              session_timeout_ms=cfg.get("session_timeout_ms", 3000), heartbeat_interval_ms=cfg.get("heartbeat_interval_ms", 300),
               auto_offset_reset=cfg.get("auto_offset_reset", "earliest"), enable_auto_commit=False,
               isolation_level=cfg.get("isolation", "read_uncommitted"), check_crcs=cfg.get("check_crcs", True),
               max_partition_fetch_bytes=cfg.get("max_partition_fetch_bytes", 1048576),
@@ -253,6 +257,13 @@ async def _main(case, obs, loop, net):
             try:
                 if kind == "sleep":
                     await asyncio.sleep(op[1])
+                    continue
+                if kind == "append":
+                    tp = tps[op[1] % len(tps)]
+                    install_batches(c.log(tp.topic, tp.partition), [op[2]], c.now_ms())
+                    ev["tp"] = tpk(*tp)
+                    ev["t"] = loop._vtime
+                    obs.events.append(ev)
                     continue
                 if kind == "getone":
                     parts = sel(op[1])
@@ -310,6 +321,9 @@ async def _main(case, obs, loop, net):
                     ev["position_after"] = await consumer.position(tp)
             except KafkaError as e:
                 ev["error"] = (type(e).__name__, repr(e))
+            except Exception as e:     # anything else escaping the consumer API is reported by the oracles
+                ev["error"] = (type(e).__name__, repr(e))
+                ev["unexpected"] = True
             ev["t"] = loop._vtime
             obs.events.append(ev)
 
@@ -339,11 +353,13 @@ async def _main(case, obs, loop, net):
         ev = {"op": "getmany", "task": -1, "t_call": loop._vtime, "filter": [], "max_records": None, "drain": True}
         try:
             res = await consumer.getmany(timeout_ms=200)
-        except KafkaError as e:
+        except Exception as e:
             ev["error"] = (type(e).__name__, repr(e))
+            ev["unexpected"] = not isinstance(e, KafkaError)
             ev["records"] = []
             ev["t"] = loop._vtime
             obs.events.append(ev)
+            await asyncio.sleep(0.05)
             continue
         ev["records"] = []
         ev["by_tp"] = {}
@@ -431,6 +447,8 @@ def check_delivery(case, obs, out, isolation, initial_pos=None, check_drain=True
     delivered = {k: [] for k in pos}
     for ev in obs.events:
         op = ev["op"]
+        if ev.get("unexpected"):
+            out.fail("in_order_no_gap", "api_raised:" + ev["error"][0], {"event": _short(ev)})
         if op == "seek":
             k = ev["tp"]
             pos[k] = ev["offset"]
